@@ -59,9 +59,48 @@ def lit_key(e):
     return None
 
 
+def key_set(rules, e, fuel=3):
+    """literal keys a map member can claim (mirrors Relations!KeysE): list of keys, or None when not all of them are literal"""
+    if e["k"] == "ent":
+        k = lit_key(e)
+        return None if k is None else [k]
+    if fuel == 0:
+        return None
+    if e["k"] == "sub":
+        alts = e["g"]["galts"]
+    elif e["k"] == "name":
+        defs = [r for r in rules if r["name"] == e["n"]]
+        if not defs or any(r["kind"] != "group" for r in defs):
+            return None
+        alts = [[r["e"]] for r in defs]
+    else:
+        return None
+    ks = []
+    for alt in alts:
+        for x in alt:
+            sub_ks = key_set(rules, x, fuel - 1)
+            if sub_ks is None:
+                return None
+            ks += sub_ks
+    return ks
+
+
+def disjoint_key_sets(rules, es):
+    sets = [key_set(rules, e) for e in es]
+    if any(s is None or not s for s in sets):
+        return False
+    seen = set()
+    for s in sets:
+        if seen & set(s):
+            return False
+        seen |= set(s)
+    return True
+
+
 def permute_schema(rnd, rules):
     """returns (rules2, changed)"""
     changed = [False]
+    rules0 = rules
 
     def walk(o, in_map=False):
         if isinstance(o, dict):
@@ -71,7 +110,7 @@ def permute_schema(rnd, rules):
                 for alt in g["galts"]:
                     alt2 = [walk(e) for e in alt]
                     keys = [lit_key(e) for e in alt2]
-                    if len(alt2) >= 2 and all(k is not None for k in keys) and len(set(keys)) == len(keys):
+                    if len(alt2) >= 2 and ((all(k is not None for k in keys) and len(set(keys)) == len(keys)) or disjoint_key_sets(rules0, alt2)):
                         perm = list(alt2)
                         rnd.shuffle(perm)
                         if perm != alt2:
@@ -193,6 +232,10 @@ def run():
     for fmt in ("json", "cbor"):
         for c in semcheck.gen_pairs(rnd, fmt, n_schemas, profile="core"):
             base.append((fmt, c["rules"], c["val"]))
+        # maps with (generic) group-rule members next to keyed members: the members' key sets are disjoint, so they may be permuted too
+        for c in semcheck.gen_pairs(rnd, fmt, n_schemas // 2, profile="shared"):
+            if "map-name-entry" in semcheck.tags_of_rules(c["rules"]):
+                base.append((fmt, c["rules"], c["val"]))
     # ---- document permutations
     cases, rel = [], []
     for fmt, r, v in base:
